@@ -368,7 +368,8 @@ impl Report {
         let next = AtomicUsize::new(0);
         let chunk = (n / (self.threads * 64)).clamp(1, 4096);
         let accs: Mutex<Vec<ThreadAcc>> = Mutex::new(Vec::new());
-        let nthreads = self.threads.min(n.max(1));
+        // small spaces are not worth 16 thread spawns (1 440 cast tables of a few hundred cases each ...)
+        let nthreads = if n < 4096 { 1 } else { self.threads.min(n.max(1)) };
         std::thread::scope(|s| {
             for _ in 0..nthreads {
                 s.spawn(|| {
@@ -701,7 +702,7 @@ impl Report {
             let states_ref = &states;
             let prop = self.property.clone();
             std::thread::scope(|sc| {
-                for _ in 0..self.threads.min(nwork.max(1)) {
+                for _ in 0..(if nwork < 2048 { 1 } else { self.threads.min(nwork.max(1)) }) {
                     sc.spawn(|| {
                         let mut ctx = Ctx::new();
                         let mut local: Vec<Out<S>> = Vec::new();
